@@ -39,10 +39,15 @@ def fmt_local(m):
     return (EPOCH + timedelta(minutes=m)).strftime("%Y%m%dT%H%M%S")
 
 
-def render_zone(z, tzid, with_names=True):
+def render_zone(z, tzid, with_names=True, with_x=False):
     out = ["BEGIN:VTIMEZONE", f"TZID:{tzid}"]
+    if with_x:
+        # non-standard properties as exported by common producers; they do not change the definition
+        out += ["X-LIC-LOCATION:Europe/Verif", "LAST-MODIFIED:20240101T000000Z"]
     for o in z:
         out.append(f"BEGIN:{o['kind']}")
+        if with_x:
+            out.append("X-VERIF-NOTE:observance")
         out.append(f"DTSTART:{fmt_local(o['start'])}")
         out.append(f"TZOFFSETFROM:{fmt_off(o['from'])}")
         out.append(f"TZOFFSETTO:{fmt_off(o['to'])}")
@@ -84,9 +89,24 @@ def run(ctx: Ctx):
         consts = {"Y0s": {1996, 2001, 2015}, "Ends": {"open", "count", "until"}}
         fixed = {0, 345, -720, 840, -210}
         pairs = {(60, 120), (-300, -240), (570, 630), (0, 120)}
-    r = ctx.mc("MC_VTimezone", cfg_text(spec="Spec", constants=consts, invariants=["InvUnique", "InvNonEmpty", "Vec"]),
+    r = ctx.mc("MC_VTimezone", cfg_text(spec="Spec", constants={**consts, "Cross": False},
+                                        invariants=["InvUnique", "InvNonEmpty", "InvPytzMirror", "Vec"]),
                defs={"OffPairs": pairs, "Fixed": fixed}, workers=6 if ctx.quick else 14, timeout=6000)
     zones = r.prints
+    # definitions whose onsets are ordered differently in local time and in UTC: the mirror of
+    # get_transitions (sort by local time) + pytz (bisect on the derived UTC list) is refuted by TLC
+    rx = ctx.mc("MC_VTimezone", cfg_text(spec="Spec", constants={"Y0s": {2001}, "Ends": {"open"}, "Cross": True},
+                                         invariants=["InvPytzMirror"]),
+                defs={"OffPairs": {(60, 120)}, "Fixed": {0}}, expect_ok=False, count=False, workers=1, timeout=600)
+    if rx.violated != "InvPytzMirror":
+        raise Machinery("the local-time sort of get_transitions should be refuted on cross-ordered onsets")
+    rc = ctx.mc("MC_VTimezone", cfg_text(spec="Spec", constants={"Y0s": {2001}, "Ends": {"open"}, "Cross": True},
+                                         invariants=["InvUnique", "InvNonEmpty", "Vec"]),
+                defs={"OffPairs": {(60, 120)}, "Fixed": {0}}, workers=4, timeout=600)
+    cross = [v for v in rc.prints if len(v["z"]) == 3 and [o["name"] for o in v["z"]] == ["A", "B", "C"]]
+    if len(cross) < 4:
+        raise Machinery("cross-ordered zones missing")
+    zones = zones + cross
     if len(zones) < 30:
         raise Machinery(f"too few zones {len(zones)}")
     ctx.sample({"zone": zones[len(zones) // 2]["z"], "n_probes": len(zones[len(zones) // 2]["probes"])})
@@ -95,8 +115,9 @@ def run(ctx: Ctx):
         for prov in ("zoneinfo", "pytz"):
             tzp.use(prov)
             for zi, v in enumerate(zones):
-                text = render_zone(v["z"], f"Verif/Zone-{zi}")
-                case = {"zone": v["z"], "provider": prov}
+                with_x = zi % 3 == 1
+                text = render_zone(v["z"], f"Verif/Zone-{zi}", with_x=with_x)
+                case = {"zone": v["z"], "provider": prov, "with_x": with_x}
                 try:
                     comp = Timezone.from_ical(text)
                     tz = comp.to_tz(tzp, lookup_tzid=False)
@@ -111,6 +132,7 @@ def run(ctx: Ctx):
                         got = probe(tz, t, sec)
                         nprobe += 1
                         pc = {**case, "t": t, "sec": sec, "utc": (EPOCH + timedelta(minutes=t)).isoformat()}
+                        pc["impl_equal"] = (got["off"] == want["impl"]["off"] and got["name"] == want["impl"]["name"])
                         if got["off"] not in want["off"]:
                             bad += ctx.fail("P:C12:utcoffset", pc, got, want)
                         elif got["name"] not in want["name"]:
